@@ -3,6 +3,7 @@
     the REAL decoders never panic is what the correspondence runs supply (PARTIAL for that
     clause). Round trips and the frame-stream theorem are proved for all well-formed values. *)
 From ID Require Import Model.Codecs Proofs.PostcardFacts Proofs.CodecFacts Proofs.StreamFacts.
+From ID Require Import Base.Bytes Model.Entry Model.Bounds Model.Codecs Proofs.FsPutFacts Proofs.IdFacts.
 
 Theorem C09_varint_roundtrip : forall v, v < 2 ^ 64 -> roundtrips enc_varint dec_varint_u64 v.
 Proof. exact varint_u64_roundtrip. Qed.
@@ -66,3 +67,25 @@ Print Assumptions C09_frame_stream_truncated.
 Print Assumptions C09_truncated_frame_needs_more.
 Print Assumptions C09_oversize_is_error.
 Print Assumptions C09_pinned_signed_entry.
+
+(** the bridge to the store theorems, which treat 32-byte identifiers and hashes as numbers: for
+    byte strings of equal length the byte-wise order (the order of the database keys) is the order
+    of the big-endian values, the value determines the bytes, 32 bytes stay within [MAX256] *)
+Theorem C09_byte_order_is_numeric_order : forall a b, wf_bytes a -> wf_bytes b -> length a = length b ->
+  (lex_lt a b = true <-> be a < be b).
+Proof. exact be_lex. Qed.
+Theorem C09_value_determines_bytes : forall a b, wf_bytes a -> wf_bytes b -> length a = length b -> be a = be b -> a = b.
+Proof. exact be_inj. Qed.
+Theorem C09_32_bytes_within_bound : forall b, wf_bytes b -> length b = 32%nat -> be b <= MAX256.
+Proof. exact be32_max. Qed.
+
+(** ... and what the entry decoder yields is well formed in the sense those theorems require
+    (32-byte ids, byte keys), whatever bytes it is fed *)
+Theorem C09_decoded_entries_well_formed : forall b w r, wf_bytes b -> dec_wentry b = Some (w, r) ->
+  wf_entry (we_entry w) /\ wf_bytes r.
+Proof. exact dec_wentry_wf. Qed.
+
+Print Assumptions C09_byte_order_is_numeric_order.
+Print Assumptions C09_value_determines_bytes.
+Print Assumptions C09_32_bytes_within_bound.
+Print Assumptions C09_decoded_entries_well_formed.
